@@ -2044,8 +2044,7 @@ def r114(ctx, repo, setitem, mc, ml):
                        get_measurement_identifier=lambda: "mid",
                        features_innate=[], features=[],
                        filter=Namespace("filter", all=[True, False]))
-        loc = {"ds": ds, "self": Namespace("self", rtdc_ds=ds),
-               "filtered": filtered, "features": None}
+        loc = {"ds": ds, "filtered": filtered, "features": None}
         g = _env(repo, interp, EXP,
                  dfn=Namespace("dfn", CFG_METADATA=mc.CFG_METADATA,
                                CFG_ANALYSIS=mc.CFG_ANALYSIS,
@@ -2054,6 +2053,9 @@ def r114(ctx, repo, setitem, mc, ml):
                  ConfigurationDict=ModelCD,
                  copy=Namespace("copy", deepcopy=_copy.deepcopy,
                                 copy=_copy.copy))
+        from ..lib_C11 import ClassModel
+        loc["self"] = ClassModel(repo.cls(EXP, "Export"), g, interp,
+                                 strict_instances=True).instance(rtdc_ds=ds)
         how = "filtered" if filtered else "unfiltered"
         problems = []
         try:
